@@ -27,6 +27,10 @@ type Case struct {
 	// Exp: every ordinate and the threshold are multiplied by 2^Exp (exact) before
 	// they are handed to the library; which points may be dropped does not change.
 	Exp int `json:"exp,omitempty"`
+	// Burst: after the line itself, its prefixes of these lengths are simplified one
+	// after another (hundreds of calls on lines of differing sizes within one case):
+	// whatever a call leaves behind must not show in a later one.
+	Burst []int `json:"burst,omitempty"`
 }
 
 // curExp is Case.Exp of the case being evaluated (one case at a time per process).
@@ -125,6 +129,17 @@ func genCase(t *rapid.T) Case {
 		thr = rapid.Float64Range(0, float64(side)+1).Draw(t, "thr")
 	}
 	c := Case{Shape: shape, Stride: rapid.IntRange(2, 5).Draw(t, "stride"), Pts: pts, Thr: model.Of(thr)}
+	if n := len(pts); n >= 30 && n <= 300 && rapid.IntRange(0, 39).Draw(t, "burst") == 0 {
+		k := rapid.IntRange(260, 560).Draw(t, "nburst")
+		for i := 0; i < k; i++ {
+			// mostly very short lines, now and then a long one
+			if rapid.IntRange(0, 9).Draw(t, "blong") == 0 {
+				c.Burst = append(c.Burst, rapid.IntRange(3, n).Draw(t, "blen"))
+			} else {
+				c.Burst = append(c.Burst, rapid.IntRange(0, 6).Draw(t, "bshort"))
+			}
+		}
+	}
 	if rapid.IntRange(0, 5).Draw(t, "scaled") == 0 {
 		c.Exp = rapid.SampledFrom([]int{400, -400, 200, -200, 50, -50}).Draw(t, "exp")
 		if rapid.Bool().Draw(t, "expany") {
@@ -164,6 +179,16 @@ func prop(c Case) error {
 	f := flat(c.Pts, c.Stride)
 	if err := simplify(c, f); err != nil {
 		return err
+	}
+	for i, b := range c.Burst {
+		if b > len(c.Pts) {
+			b = len(c.Pts)
+		}
+		sub := c
+		sub.Pts, sub.Burst = c.Pts[:b], nil
+		if err := simplify(sub, flat(sub.Pts, c.Stride)); err != nil {
+			return fmt.Errorf("call %d of a burst of %d (the line's first %d points): %v", i+1, len(c.Burst), b, err)
+		}
 	}
 	if len(c.Pts) > 300 {
 		return nil
@@ -251,6 +276,15 @@ func simplify(c Case, f []float64) error {
 
 func classify(c Case) ([]string, bool) {
 	cl := []string{"shape:" + c.Shape, fmt.Sprintf("stride:%d", c.Stride)}
+	if len(c.Burst) > 0 {
+		cl = append(cl, "burst-of-calls")
+	}
+	if len(c.Pts) >= 1024 {
+		cl = append(cl, "n>=1024")
+	}
+	if c.Exp != 0 {
+		cl = append(cl, "scaled")
+	}
 	n := len(c.Pts)
 	kept := -1
 	_ = run.Safe(func() error {
